@@ -24,7 +24,7 @@ from props import c16 as T        # the shared audit-hook tracer (one hook per p
 ID = 'C20'
 LEVEL = 'proof'
 CLUSTER = 'F'
-GEN_UNITS = ['Effects']
+GEN_UNITS = ['Effects', 'fx_create_sql', 'fx_commit', 'fx_close', 'fx_init']
 PIN_TARGETS = ['PdbVerif.Pins.F']
 RULE = ('scenarios create[,modify][,commit][,modify],close(keep|remove) with modify in {update_column, update, add_column, '
         'fix_chainID}, 1..40 atoms, file name initially absent | an older database | not a database; x a kill before every '
@@ -719,6 +719,171 @@ def strace_kills(ctx, c, max_n):
     return runs, None, 'stopped after %d injection points' % max_n
 
 
+
+# ===== fxTie: translated effect programs (Gen/Fx.lean) vs the real calls ============================================
+def fx_tie_checks(ctx):
+    """implementation = generated: `_create_sql`, `_commit`, `_close`, `__init__` of real objects are run with every
+    isfile / os.remove / sqlite3.connect / cursor / commit / close recorded (audit hook + a recording Connection class), and
+    the TRANSLATED programs (GenF.*, driver op fx_run) are run in a world with the same files; the two event lists (calls with
+    their arguments, in order) and the files left must be equal."""
+    import pdb2sql as lib
+    from pdb2sql import pdb2sql
+    from pdb2sql.pdb2sql_base import pdb2sql_base
+    rng = ctx.rng
+    rec = []
+
+    class RConn(sqlite3.Connection):
+        def cursor(self, *a, **k):
+            T._note(('conn', 'cursor', self._fx_name))
+            return super().cursor(*a, **k)
+
+        def commit(self):
+            T._note(('conn', 'commit', self._fx_name))
+            return super().commit()
+
+        def close(self):
+            T._note(('conn', 'close', self._fx_name))
+            return super().close()
+
+    def canon(events, given):
+        out = []
+        for ev in events:
+            k = ev[0]
+            if k in ('isfile', 'os.remove', 'os.unlink', 'sqlite3.connect'):
+                arg = ev[1]
+                arg = ':memory:' if arg == ':memory:' else ('db' if os.fsdecode(os.fspath(arg)) == given else 'other:' + str(arg))
+                out.append([{'isfile': 'isfile', 'os.remove': 'remove', 'os.unlink': 'remove', 'sqlite3.connect': 'connect'}[k], arg])
+            elif k == 'conn':
+                out.append([ev[1], ev[2]])
+            elif k == 'marker':
+                out.append(['exists', ev[1]])
+            elif k in ('os.system', 'subprocess.Popen', 'open', 'os.rename', 'tempfile.mkstemp'):
+                out.append(['foreign:' + k, str(ev[1])[:60]])
+        return out
+
+    def lean_canon(evs, given):
+        out = []
+        for e in evs:
+            a = e[1]
+            a = ':memory:' if a == ':memory:' else ('db' if a == given else ('other:' + a if e[0] != 'exists' else a))
+            out.append([e[0], a])
+        return out
+
+    orig_connect = sqlite3.connect
+
+    def rconnect(name, *a, **k):
+        con = orig_connect(name, *a, factory=RConn, **k)
+        con._fx_name = ':memory:' if name == ':memory:' else 'db'
+        return con
+
+    class Probe(pdb2sql):
+        def _create_table(self, pdbfile, tablename='ATOM'):
+            T._note(('marker', '_create_table(%s,%s)' % (pdbfile, tablename)))
+
+        def _fix_chainID(self):
+            T._note(('marker', '_fix_chainID()'))
+
+    cases_, lines = [], []
+    names = ['atoms.db', 'x y.db', "it's.db", '$(touch x)', '-rf', 'a;b', 'sub/d.db']
+    for r0 in ('nofile', 'olddb', 'garbage'):
+        for mem in (False, True):
+            for rmdb in (True, False, None):
+                for twice in (False, True):
+                    if mem and r0 != 'nofile':
+                        continue
+                    cases_.append({'r0': r0, 'mem': mem, 'rmdb': rmdb, 'twice': twice, 'name': rng.choice(names), 'commit': rng.random() < 0.5,
+                                   'fix': rng.random() < 0.5})
+    bad, n_ok = None, 0
+    T.install()
+    for c in cases_:
+        name = c['name']
+        wd = os.path.join(ctx.tmpdir(), 'c20fx_%d' % next(_COUNTER))
+        os.makedirs(os.path.join(wd, 'sub'))
+        p = os.path.join(wd, name)
+        if c['r0'] == 'olddb':
+            old_db(p)
+        elif c['r0'] == 'garbage':
+            open(p, 'w').write('not a database\n')
+        given = None if c['mem'] else name
+        cwd0 = os.getcwd()
+        os.chdir(wd)
+        sqlite3.connect = rconnect
+        steps = []          # (fn, driver line, real events, real outcome, file exists afterwards)
+        try:
+            with warnings.catch_warnings():
+                warnings.simplefilter('ignore')
+                obj = pdb2sql.__new__(pdb2sql)
+                pdb2sql_base.__init__(obj, pdb_lines(3), sqlfile=given)
+
+                def present():
+                    return [[name, []]] if (given is not None and os.path.lexists(name)) else []
+
+                def do(fn, call, **kw):
+                    files = present()
+                    val, ev = T.traced(call)
+                    line = dict({'op': 'fx_run', 'fn': fn, 'files': files, 'connected': hasattr(obj, 'conn')}, **kw)
+                    if given is not None:
+                        line['sqlfile'] = given
+                    steps.append((fn, line, canon(ev, given), 'ok' if val[0] == 'ok' else exc_tag(val[1]), given is not None and os.path.lexists(name)))
+                # the driver line must describe the object BEFORE the call
+                files0, conn0 = present(), False
+                val, ev = T.traced(obj._create_sql)
+                l0 = {'op': 'fx_run', 'fn': 'create_sql', 'files': files0, 'connected': False}
+                if given is not None:
+                    l0['sqlfile'] = given
+                steps.append(('create_sql', l0, canon(ev, given), 'ok' if val[0] == 'ok' else exc_tag(val[1]), given is not None and os.path.lexists(name)))
+                obj.c.execute('CREATE TABLE ATOM (x INT)')
+                obj.c.execute('INSERT INTO ATOM VALUES (1)')
+                if c['commit']:
+                    l1 = dict(l0, fn='commit', files=present(), connected=True)
+                    val, ev = T.traced(obj._commit)
+                    steps.append(('commit', l1, canon(ev, given), 'ok' if val[0] == 'ok' else exc_tag(val[1]), given is not None and os.path.lexists(name)))
+                for _ in range(2 if c['twice'] else 1):
+                    l2 = dict(l0, fn='close', files=present(), connected=True)
+                    if c['rmdb'] is None:
+                        val, ev = T.traced(obj._close)                 # the default of rmdb is part of the translation
+                    else:
+                        l2['rmdb'] = c['rmdb']
+                        val, ev = T.traced(lambda: obj._close(rmdb=c['rmdb']))
+                    steps.append(('close', l2, canon(ev, given), 'ok' if val[0] == 'ok' else exc_tag(val[1]), given is not None and os.path.lexists(name)))
+                    if not c['rmdb'] in (True, None):
+                        break                                         # commit on a closed connection raises: outside the model's scenarios
+                # __init__: the order of _create_sql, _create_table, _fix_chainID
+                files3 = present()
+                val, ev = T.traced(lambda: Probe('x.pdb', sqlfile=given, fix_chainID=c['fix']))
+                l3 = dict(l0, fn='init', files=files3, connected=False, pdbfile='x.pdb', fix_chainID=c['fix'])
+                steps.append(('init', l3, canon(ev, given), 'ok' if val[0] == 'ok' else exc_tag(val[1]), given is not None and os.path.lexists(name)))
+                if val[0] == 'ok':
+                    val[1].conn.close()
+        finally:
+            sqlite3.connect = orig_connect
+            os.chdir(cwd0)
+        shutil.rmtree(wd, ignore_errors=True)
+        for st in steps:
+            lines.append(st[1])
+            rec.append((c, st))
+    answers = vlib.run_driver(lines, which='model', cluster=CLUSTER)
+    for (c, (fn, line, real, outcome, exists)), a in zip(rec, answers):
+        m = a.get('model') or {}
+        given = line.get('sqlfile')
+        got = lean_canon(m.get('events', []), given)
+        lean_exists = any(f[0] == given for f in m.get('files', []))
+        why = None
+        if a.get('driver_error'):
+            why = 'driver error: ' + str(a)[:300]
+        elif got != real:
+            why = 'calls differ: real %s translated %s' % (real, got)
+        elif (m.get('outcome') == 'ok') != (outcome == 'ok'):
+            why = 'outcome: real %s translated %s' % (outcome, m.get('outcome'))
+        elif lean_exists != exists:
+            why = 'file present afterwards: real %s translated %s' % (exists, lean_exists)
+        if why and bad is None:
+            bad = {'case': c, 'fn': fn, 'line': line, 'why': why}
+        n_ok += 0 if why else 1
+    return [{'name': 'translated _create_sql/_commit/_close/__init__ (GenF) make the calls of the real code, same arguments, same order (%d runs)' % len(rec),
+             'ok': bad is None, 'case': bad, 'detail': 'implementation and generated effect program disagree', 'replay_kind': 'input', 'kind': None}]
+# ===== end fxTie ===================================================================================================
+
 def extra_checks(ctx):
     res = []
     rng = ctx.rng
@@ -823,4 +988,5 @@ def extra_checks(ctx):
                 'ok': prob2 is None, 'case': prob2, 'detail': 'file names are not treated as data', 'replay_kind': 'input'})
     res.append({'name': 'two objects in a row on %d hostile names: exactly that file created, replaced, removed; victims untouched; nothing spawned' % len(names),
                 'ok': prob is None, 'case': prob, 'detail': 'file names are not treated as data', 'replay_kind': 'input'})
+    res += fx_tie_checks(ctx)                       # fxTie
     return res
